@@ -597,3 +597,104 @@ func H_C09_failedIncludeInTry() {
 	vfNote(out)
 	vfAssert(out == want, "a failed include leaks no context, declaration or block back, with or without a catch clause")
 }
+
+// c09Stmt is statement form f written for slot k of an executed template: its source and
+// the value of the return it executes ("" with ret=false when it executes none).
+func c09Stmt(f, k int) (src string, val string, ret bool) {
+	n := ndItoa(k)
+	switch f {
+	case 0:
+		return "text", "", false
+	case 1:
+		return `{{ return "r` + n + `" }}`, "r" + n, true
+	case 2:
+		return `{{ return nil }}`, "", true
+	case 3:
+		return `{{ if yes }}{{ return "i` + n + `" }}{{ end }}`, "i" + n, true
+	case 4:
+		return `{{ if no }}{{ return "n` + n + `" }}{{ end }}`, "", false
+	case 5:
+		return `{{ if no }}x{{ else }}{{ return "e` + n + `" }}{{ end }}`, "e" + n, true
+	case 6:
+		return `{{ try }}{{ return "t` + n + `" }}{{ end }}`, "t" + n, true
+	case 7:
+		return `{{ include "/ret.jet" "c` + n + `" }}`, "c" + n, true
+	case 8:
+		return `{{ range s }}{{ if . == "e2" }}{{ return "g` + n + `" }}{{ end }}{{ end }}`, "g" + n, true
+	case 9:
+		return `{{ return m.absent }}`, "", true
+	case 10:
+		return `{{ try }}{{ fail() }}{{ catch }}c{{ end }}`, "", false
+	case 11:
+		return `{{ range none }}x{{ end }}`, "", false
+	default:
+		return `{{ if no }}x{{ else if no }}y{{ end }}`, "", false
+	}
+}
+
+// H_C09_returnSequences: an executed template made of three statements, each one of
+// thirteen forms - text, a return of a string / of nil / of an absent map entry, a return
+// inside an if or else branch that runs or not, inside try, in an included file, inside a
+// range, and constructs that return nothing (a caught failure, an empty range, an if chain
+// of which no branch runs): exec evaluates to the value given to the last return that was
+// executed, whatever came before or comes after it.
+//
+//gosym:reach returned
+func H_C09_returnSequences() {
+	src, want := "", ""
+	for k := 0; k < 3; k++ {
+		s, v, ret := c09Stmt(ndChoice("stmt"+ndItoa(k), 13), k)
+		src += s
+		if ret {
+			want = v
+		}
+	}
+	set := hxSet(nil,
+		"/main.jet", `[{{ exec("/e.jet") }}]`,
+		"/e.jet", src,
+		"/ret.jet", `{{ return . }}`,
+	)
+	vars := make(VarMap)
+	vars.Set("s", []string{"e1", "e2"})
+	vars.Set("none", []string{})
+	vars.Set("m", map[string]string{})
+	vars.Set("yes", true)
+	vars.Set("no", false)
+	vars.SetFunc("fail", hxFail)
+	out, err := hxExec(set, "/main.jet", vars, nil)
+	vfReach("returned")
+	vfAssert(err == nil, "renders")
+	vfNote(src)
+	vfNote(out)
+	vfAssert(out == "["+want+"]", "exec evaluates to the value of the last return executed")
+}
+
+// H_C09_nestedNilReturn: a return of nil executed inside an if, try, range or included
+// file after a return of a value: it is the last return executed, so exec evaluates to nil.
+// (Recorded as a known finding: the value of the earlier return survives.)
+//
+//gosym:reach returned
+func H_C09_nestedNilReturn() {
+	wrap := ndChoice("wrap", 5)
+	inner := []string{
+		`{{ if yes }}{{ return nil }}{{ end }}`,
+		`{{ try }}{{ return nil }}{{ end }}`,
+		`{{ include "/nil.jet" }}`,
+		`{{ range s }}{{ return nil }}{{ end }}`,
+		`{{ if yes }}{{ return m.absent }}{{ end }}`,
+	}[wrap]
+	set := hxSet(nil,
+		"/main.jet", `[{{ exec("/e.jet") }}]`,
+		"/e.jet", `{{ return "a" }}`+inner,
+		"/nil.jet", `{{ return nil }}`,
+	)
+	vars := make(VarMap)
+	vars.Set("s", []string{"e1", "e2"})
+	vars.Set("m", map[string]string{})
+	vars.Set("yes", true)
+	out, err := hxExec(set, "/main.jet", vars, nil)
+	vfReach("returned")
+	vfAssert(err == nil, "renders")
+	vfNote(out)
+	vfAssert(out == "[]", "a nested return of nil is the last return executed")
+}
